@@ -470,6 +470,10 @@ def run_ip(ctx, case):
             base["error"] = repr(e1)
             if b"byte key" in e1 or b"Invalid mode" in e1:
                 ctx.skip("stale_or_rejected_parameters:%s" % mode)
+            elif b"halves" in e1:
+                # ipcrypt-pfx requires the two 16-byte halves of the key to differ: such a key is not
+                # "of the sizes the algorithm requires" in the property's sense
+                ctx.skip("pfx_key_with_identical_halves_rejected")
             else:
                 ctx.violation("encrypt_ip:%s:encrypt_error:%s" % (mode, ver), base, case=one)
             continue
@@ -487,7 +491,9 @@ def run_ip(ctx, case):
         if back != addr or back.version != addr.version:
             if (addr.version == 6 and addr.ipv4_mapped is not None and back.version == 4
                     and back == addr.ipv4_mapped):
-                ctx.violation("encrypt_ip:%s:ipv4_mapped_ipv6_comes_back_as_ipv4" % mode, base, case=one)
+                # an IPv4-mapped IPv6 address and the IPv4 address denote the same address; whether the
+                # textual family must survive is not stated by the property: counted, not judged
+                ctx.skip("ipv4_mapped_ipv6_comes_back_as_ipv4:%s" % mode)
             else:
                 ctx.violation("encrypt_ip:%s:roundtrip_mismatch:%s" % (mode, ver), base, case=one)
             continue
